@@ -75,6 +75,24 @@ fn compare_high(seq: &[u8]) -> Result<bool, (String, String)> {
     Ok(core::str::from_utf8(seq).is_err())
 }
 
+/// Units for the concatenation sweep: the first and last character of every lead octet's range whose validity depends on
+/// the second octet (E0, ED, F0, F4) and of the plain ranges, the ill-formed sequences next to them, pieces cut short, stray
+/// octets. (No control bytes: a control inside a would-be character is a zone C04 leaves open - the pinned decoder does not
+/// let it end the sequence, `E0 A0 0D 80` gives Enter and then U+0800.)
+fn concat_units() -> Vec<Vec<u8>> {
+    let mut u: Vec<Vec<u8>> = Vec::new();
+    for c in ['\u{80}', '\u{7ff}', '\u{800}', '\u{fff}', '\u{1000}', '\u{cfff}', '\u{d000}', '\u{d7ff}', '\u{e000}', '\u{ffff}', '\u{10000}', '\u{3ffff}', '\u{40000}', '\u{fffff}', '\u{100000}', '\u{10ffff}', 'a'] {
+        u.push(c.to_string().into_bytes());
+    }
+    for f in [
+        &[0xC0u8, 0x80][..], &[0xC1, 0xBF], &[0xE0, 0x80, 0x80], &[0xE0, 0x9F, 0xBF], &[0xED, 0xA0, 0x80], &[0xED, 0xBF, 0xBF], &[0xF0, 0x80, 0x80, 0x80], &[0xF0, 0x8F, 0xBF, 0xBF], &[0xF4, 0x90, 0x80, 0x80],
+        &[0xF4, 0xBF, 0xBF, 0xBF], &[0xF5, 0x80, 0x80, 0x80], &[0xE0, 0xA0], &[0xED, 0x9F], &[0xF0, 0x90, 0x80], &[0xF4, 0x8F], &[0xC2], &[0x80], &[0xBF], &[0xF8], &[0xFF],
+    ] {
+        u.push(f.to_vec());
+    }
+    u
+}
+
 fn check_high(sub: &str, seq: &[u8]) -> Verdict {
     compare_high(seq)
         .map(|_| ())
@@ -337,6 +355,52 @@ fn run_shard(ctx: &ShardCtx) {
             }
         }
     }
+    // what the decoder remembers of an earlier character may not excuse a later sequence: every concatenation of up to three
+    // (thorough four) units, each a well-formed character on a boundary of its lead octet's range, an ill-formed fragment
+    // (overlong, surrogate, beyond U+10FFFF, cut short, stray continuation, F8..FF), or a printable character
+    'g1u: {
+        if ctx.failed() {
+            break 'g1u;
+        }
+        let units = concat_units();
+        let depth = if thorough { 4 } else { 3 };
+        let mut stack: Vec<usize> = Vec::new();
+        let mut buf: Vec<u8> = Vec::new();
+        // iterative enumeration of index vectors of length 1..=depth
+        for len in 1..=depth {
+            stack.clear();
+            stack.resize(len, 0);
+            loop {
+                buf.clear();
+                for &i in &stack {
+                    buf.extend_from_slice(&units[i]);
+                }
+                if !go(&buf) {
+                    break 'g1u;
+                }
+                let mut k = len;
+                loop {
+                    if k == 0 {
+                        break;
+                    }
+                    k -= 1;
+                    stack[k] += 1;
+                    if stack[k] < units.len() {
+                        break;
+                    }
+                    stack[k] = 0;
+                    if k == 0 {
+                        k = usize::MAX;
+                        break;
+                    }
+                }
+                if k == usize::MAX {
+                    break;
+                }
+            }
+        }
+    }
+    ctx.exhaustive(if thorough { "all concatenations of 1-4 boundary units (well-formed characters, ill-formed fragments)" } else { "all concatenations of 1-3 boundary units (well-formed characters, ill-formed fragments)" }, !ctx.failed());
     ctx.exhaustive(
         if thorough { "all sequences of 1-4 bytes >= 0x80; all sequences of 2-3 such bytes with a printable character inserted" } else { "all sequences of 1-3 bytes >= 0x80, the same with a printable character inserted, and all 4-byte sequences over 24 boundary bytes" },
         !ctx.failed(),
